@@ -17,7 +17,7 @@
    These are decided case by case by the check's oracle and tied to the model by the correspondence.
    The three [_refuted] theorems are the input classes where the faithful model (and the code) break the text. *)
 From Coq Require Import List Ascii Bool NArith Arith Permutation.
-From SF Require Import Base.Str Tags.Model Comb.Model Comb.Proofs Comb.Flat Comb.Cart Comb.Bcast Comb.Nested.
+From SF Require Import Base.Str Tags.Model Comb.Model Comb.Proofs Comb.Flat Comb.Cart Comb.Bcast Comb.Nested Comb.NestedCor.
 From SF Require Comb.GBcast Comb.GB2.
 Import ListNotations.
 Local Open Scope string_scope. Local Open Scope list_scope.
@@ -96,6 +96,24 @@ Theorem C02_dot_broadcast_multi_partial : forall items r DP (arr : list arv),
   run (c1 items) init_state arr = (GB2.outs_b2 items r [] arr, None).
 Proof. exact GB2.dot_broadcast2. Qed.
 
+(* BROADCAST as a bag: no exception, and the emitted list is a permutation of [GB2.gdone]: for every key k (a tag that
+   occurs) whose token set {tagged k} U {tagged r} holds one token per port, exactly one combination, made of exactly
+   those tokens ([gcombo]); nothing else.  (DP = [dp] is the single-scattered-port case of C02_dot_broadcast_partial.) *)
+Theorem C02_broadcast_exactly_one_partial : forall items r DP (arr : list arv),
+  GB2.wfb2 items r DP (map GB2.tokarr arr) ->
+  snd (run (c1 items) init_state arr) = None /\
+  Permutation (concat (fst (run (c1 items) init_state arr))) (GB2.gdone items r (map GB2.tokarr arr)).
+Proof. exact GB2.broadcast_bag. Qed.
+(* ORDER INDEPENDENCE, broadcast: two arrival orders of the same tokens raise nothing and emit equal bags of combinations
+   (bag_eq as for the flat case), provided r is not empty and the scattered tags are longer than r (true of "r.i"). *)
+Theorem C02_order_independent_broadcast_partial : forall items r DP (arr1 arr2 : list arv),
+  GB2.wfb2 items r DP (map GB2.tokarr arr1) -> Permutation arr1 arr2 ->
+  1 <= String.length r ->
+  (forall a, In a arr1 -> GB2.isdeep DP (GB2.tokarr a) = true -> String.length r < String.length (atag a)) ->
+  snd (run (c1 items) init_state arr1) = None /\ snd (run (c1 items) init_state arr2) = None /\
+  bag_eq (concat (fst (run (c1 items) init_state arr1))) (concat (fst (run (c1 items) init_state arr2))).
+Proof. exact GB2.broadcast_order_independent. Qed.
+
 (* NESTED, the trees the CWL translator builds for a step with several scatter inputs S and non-scattered inputs Q
    (translator._create_residual_combinator): a dot product whose first item is the scatter combinator over S -- a dot
    product, or a cartesian product of depth d -- and whose other items are the ports Q.
@@ -131,6 +149,17 @@ Theorem C02_nested_dot_partial : forall S cname Q r (arr : list arv),
   PH S cname Q r arr ->
   run (tree S cname Q KDot) init_state arr = (nouts S cname Q r (emission S) [] [] arr, None).
 Proof. exact nested_dot_dot_primitive. Qed.
+
+(* NESTED as a bag (inner dot product): no exception, and exactly one flattened combination per complete key of the outer
+   combinator, i.e. per combination of the inner combinator joined with the broadcast tokens of Q.  (Order independence
+   of the nested run is not stated as a theorem: the inner combinations themselves are only equal up to the order of
+   their entries under two arrival orders.) *)
+Theorem C02_nested_dot_exactly_one_partial : forall S cname Q r (arr : list arv),
+  PH S cname Q r arr ->
+  snd (run (tree S cname Q KDot) init_state arr) = None /\
+  Permutation (concat (fst (run (tree S cname Q KDot) init_state arr)))
+              (GB2.gdone (names cname Q) r (derive S cname (emission S) [] arr)).
+Proof. exact nested_dot_bag. Qed.
 
 (* PARTIAL (one tag only): a dot product over the ports [items], one token per port, all tagged g, arriving in ANY
    order: nothing is emitted before the last arrival, which emits exactly one combination holding every port's
@@ -304,6 +333,38 @@ Proof.
   - exact (proj1 (proj2 C02_nested_hyp_example)).
   - simpl. intros x [<-|[<-|[<-|[<-|[<-|[]]]]]]; vm_compute; intros; try discriminate; repeat split; try congruence; auto.
 Qed.
+(* the hypotheses of C02_nested_cartesian_partial hold for S = [b; c], d = 1, Q = [a], tokens 0.9, 0.10, 0.11, and
+   the run equals the specification *)
+Example C02_nested_cartesian_example :
+  let arr : list arv := [("b", (1%N, "0.9")); ("c", (2%N, "0.10")); ("a", (0%N, "0")); ("b", (3%N, "0.11"))] in
+  let ie := fun ai x => map mk_out (emitted ["b"; "c"] 1 ai x) in
+  (forall x, In x arr -> is_scatter ["b"; "c"] x = false -> In (fst x) ["a"]) /\
+  wfc ["b"; "c"] 1 (scattered ["b"; "c"] arr) /\
+  GBcast.wfb (names "in1" ["a"]) "0" "in1" (derive ["b"; "c"] "in1" ie [] arr) /\
+  run (tree ["b"; "c"] "in1" ["a"] (KCart 1)) init_state arr = (nouts ["b"; "c"] "in1" ["a"] "0" ie [] [] arr, None) /\
+  concat (nouts ["b"; "c"] "in1" ["a"] "0" ie [] [] arr) =
+    [[("b", (1%N, "0.9.10")); ("c", (2%N, "0.9.10")); ("a", (0%N, "0.9.10"))];
+     [("a", (0%N, "0.11.10")); ("b", (3%N, "0.11.10")); ("c", (2%N, "0.11.10"))]].
+Proof.
+  split; [|split; [|split; [|split]]]; try (vm_compute; reflexivity).
+  - simpl. intros x [<-|[<-|[<-|[<-|[]]]]]; vm_compute; intros; auto; discriminate.
+  - vm_compute scattered. split; [|split; [|split]].
+    + repeat (apply NoDup_cons; [simpl; intuition congruence|]). apply NoDup_nil.
+    + simpl. intros x [<-|[<-|[<-|[]]]]; simpl; auto.
+    + unfold akey, atag. simpl. repeat (apply NoDup_cons; [simpl; intuition congruence|]). apply NoDup_nil.
+    + apply (uniform_depth_gflat 1 2). simpl. intros x [<-|[<-|[<-|[]]]]; vm_compute; reflexivity.
+  - match goal with |- GBcast.wfb _ _ _ ?d =>
+      replace d with [("in1", ESch [("b", (1%N, "0.9.10")); ("c", (2%N, "0.9.10"))]); ("a", ETok (0%N, "0"));
+                      ("in1", ESch [("b", (3%N, "0.11.10")); ("c", (2%N, "0.11.10"))])] by (vm_compute; reflexivity) end.
+    split; [|split; [|split; [|split; [|split]]]].
+    + repeat (apply NoDup_cons; [simpl; intuition congruence|]). apply NoDup_nil.
+    + simpl. auto.
+    + simpl. intros x [<-|[<-|[<-|[]]]]; simpl; auto.
+    + vm_compute. repeat (apply NoDup_cons; [simpl; intuition congruence|]). apply NoDup_nil.
+    + simpl. intros x [<-|[<-|[<-|[]]]]; vm_compute; repeat split; congruence.
+    + simpl. intros x y [<-|[<-|[<-|[]]]] [<-|[<-|[<-|[]]]] Px Py N; try discriminate Px; try discriminate Py;
+        try (exfalso; apply N; reflexivity); vm_compute; reflexivity.
+Qed.
 (* broadcast of a parent tag and a cartesian product, as the model computes them (not covered by a theorem) *)
 Example C02_broadcast_example :
   concat (fst (run (mkouter KDot [IPort "a"; IPort "b"]) init_state
@@ -323,6 +384,9 @@ Print Assumptions C02_uniform_depth_groups_unrelated.
 Print Assumptions C02_order_independent_cartesian_partial.
 Print Assumptions C02_dot_broadcast_partial.
 Print Assumptions C02_dot_broadcast_multi_partial.
+Print Assumptions C02_broadcast_exactly_one_partial.
+Print Assumptions C02_order_independent_broadcast_partial.
+Print Assumptions C02_nested_dot_exactly_one_partial.
 Print Assumptions C02_nested_partial.
 Print Assumptions C02_nested_cartesian_partial.
 Print Assumptions C02_nested_dot_partial.
